@@ -276,7 +276,7 @@ EXTRA = {
            "that shows the waiter only at look K+1 (K up to 2^22): the post must wait it out (patience of the retry loop).",
     "C07": "rt/h_init.c injects word states that rw_word_inv characterises as reachable (n readers; writer + n waiting; n around the powers of "
            "two inside the 21-bit fields) and runs the real try-operations, unlocks and the blocking calls' decision to wait on them.",
-    "C09": "Scenario e of rt/h_sleep.c: 20000-70000 fibers asleep at once sharing one wake tick (more than the unit suite ever has), each must "
+    "C09": "Scenario e of rt/h_sleep.c: 20000-28000 fibers asleep at once sharing one wake tick (more than the unit suite ever has), each must "
            "return exactly once and not early.",
     "C10": "The whole-runtime fairness layer also runs joins followed by yield-polling on 3-4 kernel threads; the runtime monitor checks the "
            "fiber state word as a protocol (only the thread a fiber runs on turns RUNNING into READY).",
